@@ -125,4 +125,15 @@ def specRows [Inhabited V] (W : World V) (D : VarId → List V) (vars : List Var
     | none => true
   ok.map fun β => termsVal W (asgOf β) sel
 
+/-- The specification of `for_all(u, c)` (optionally `and_(d, for_all(u, c))`): the assignments of
+    the other variables for which `c` holds under EVERY value of `u` (and `d` holds). -/
+def specRowsForAll [Inhabited V] (W : World V) (D : VarId → List V) (vars : List VarId)
+    (sel : List (Term V)) (outer : Option (SCond V)) (u : VarId) (sc : SCond V) : List (List V) :=
+  let free := ((match outer with | some c => c.free | none => []) ++ sc.free ++ Terms.free sel).filter (· != u)
+  let bs := allBnds D (vars.filter free.contains)
+  let ok := bs.filter fun β =>
+    (match outer with | some d => sdenote W (asgOf β) d | none => true) &&
+    (D u).all fun o => sdenote W (asgOf ((u, o) :: β)) sc
+  ok.map fun β => termsVal W (asgOf β) sel
+
 end Eql
